@@ -98,7 +98,7 @@ package slip
 // the package tables changes. (Checked where the tables are released, before
 // the user hooks run.)
 //@ func slip.(*Package).DefLambda
-//@   property C08 C13
+//@   property C08 C13 C19
 //@   on-call Unlock patched: (old(has(obj.lambdas, name)) && old(obj.lambdas[name]) != nil) ==> (obj.lambdas[name] == old(obj.lambdas[name]) && obj.lambdas[name].Doc == lam.Doc && obj.lambdas[name].Forms == lam.Forms && obj.lambdas[name].Closure == lam.Closure && obj.lambdas[name].Macro == lam.Macro)
 //@   on-call Unlock registered: !(old(has(obj.lambdas, name)) && old(obj.lambdas[name]) != nil) ==> (has(obj.lambdas, name) && obj.lambdas[name] == lam)
 //@   on-call Unlock funcinfo: has(obj.funcs, name) && obj.funcs[name] != nil && obj.funcs[name].Doc == lam.Doc && obj.funcs[name].Pkg == obj && obj.funcs[name].Kind == kind
